@@ -323,6 +323,49 @@ func main() {
 				break
 			}
 
+			// ---- a waiter that rotates the list onto itself takes nothing away: the next waiter is served too
+			for _, rot := range [][]string{{"BLMOVE", "rk", "rk", "LEFT", "RIGHT", "0"}, {"BRPOPLPUSH", "rk", "rk", "0"}, {"BLMOVE", "rk", "rk", "RIGHT", "RIGHT", "0"}} {
+				vs := redisemu.VerifNewStore("")
+				a, b, p := vs.NewClient(), vs.NewClient(), vs.NewClient()
+				cha := async(a, rot...)
+				if !waitBlocked(a, time.Second) {
+					fail("rotation", round, []string{strings.Join(rot, " ")}, "the rotating client never became blocked")
+					break
+				}
+				time.Sleep(2 * time.Millisecond)
+				chb := async(b, "BLPOP", "rk", "0")
+				if !waitBlocked(b, time.Second) {
+					fail("rotation", round, nil, "the second client never became blocked")
+					break
+				}
+				time.Sleep(2 * time.Millisecond)
+				do(p, "RPUSH", "rk", "one")
+				steps := []string{"A: " + strings.Join(rot, " "), "B: BLPOP rk 0", "P: RPUSH rk one"}
+				ra, okA := get(cha, 500*time.Millisecond)
+				if !okA || !strings.Contains(ra.reply, "one") {
+					fail("rotation", round, steps, fmt.Sprintf("the rotating client was not served (done=%v reply=%q)", okA, ra.reply))
+					break
+				}
+				rb, okB := get(chb, 500*time.Millisecond)
+				if !okB || !strings.Contains(rb.reply, "one") {
+					fail("rotation", round, steps, fmt.Sprintf("lost wake-up: the rotation left the element in the list (%s) but the next waiter is still blocked (done=%v reply=%q)",
+						strings.TrimSpace(do(p, "LRANGE", "rk", "0", "-1")), okB, rb.reply))
+					do(p, "CLIENT", "UNBLOCK", fmt.Sprint(b.ID()))
+					break
+				}
+				if n := do(p, "LLEN", "rk"); n != ":0\r\n" {
+					fail("rotation", round, steps, "after both were served the list should be empty, LLEN answers "+strings.TrimSpace(n))
+					break
+				}
+				stats["rotation_checks"]++
+				a.Close()
+				b.Close()
+				p.Close()
+			}
+			if failures > 0 {
+				break
+			}
+
 			// ---- a woken waiter whose element is taken away must keep waiting for the next push
 			{
 				vs := redisemu.VerifNewStore("")
@@ -374,20 +417,34 @@ func main() {
 			a, p := vs.NewClient(), vs.NewClient()
 			tmpl := blockers[round%len(blockers)]
 			// ---- timeout: not early, promptly
-			ms := 40 + r.Intn(120)
-			tsec := fmt.Sprintf("%.3f", float64(ms)/1000)
-			res := <-async(a, mk(tmpl, "tk", tsec)...)
+			// the timeout is a decimal number of seconds: tens of milliseconds, fractions of a millisecond,
+			// and milliseconds with a fraction all have to end the command, none of them early
+			us := (40 + r.Intn(120)) * 1000
+			switch round % 3 {
+			case 1:
+				us = 100 + r.Intn(900)
+			case 2:
+				us = 1000 + r.Intn(9000)
+			}
+			want := time.Duration(us) * time.Microsecond
+			tsec := fmt.Sprintf("%.6f", float64(us)/1e6)
 			steps := []string{strings.Join(mk(tmpl, "tk", tsec), " ")}
+			res, ended := get(async(a, mk(tmpl, "tk", tsec)...), want+1500*time.Millisecond)
+			if !ended {
+				fail("timeout", round, steps, fmt.Sprintf("the timeout of %s s is positive, but %v after the command was issued it has not ended (client blocked: %v)", tsec, want+1500*time.Millisecond, a.IsBlocked()))
+				do(p, "CLIENT", "UNBLOCK", fmt.Sprint(a.ID()))
+				break
+			}
 			if !(res.reply == "$-1\r\n" || res.reply == "*-1\r\n") {
 				fail("timeout", round, steps, fmt.Sprintf("timed-out command answered %q", res.reply))
 				break
 			}
-			if res.took < time.Duration(ms)*time.Millisecond {
-				fail("timeout", round, steps, fmt.Sprintf("completed after %v, earlier than its timeout of %d ms", res.took, ms))
+			if res.took < want {
+				fail("timeout", round, steps, fmt.Sprintf("completed after %v, earlier than its timeout of %v", res.took, want))
 				break
 			}
-			if res.took > time.Duration(ms)*time.Millisecond+250*time.Millisecond {
-				fail("timeout", round, steps, fmt.Sprintf("completed after %v, long after its timeout of %d ms", res.took, ms))
+			if res.took > want+250*time.Millisecond {
+				fail("timeout", round, steps, fmt.Sprintf("completed after %v, long after its timeout of %v", res.took, want))
 				break
 			}
 			stats["timeout_checks"]++
